@@ -347,3 +347,98 @@ def join_scenarios(world: SqlWorld, branch):
             out.append(("R3", f"{desc}: {what}", ok,
                         f"{desc}: the joined WHERE holds {[w_.attrs.get('name') if isinstance(w_, Obj) else w_ for w_ in (where or [])]}, ON is {str(onclause)[:120]}; documented: {what}"))  # fmt: skip
     return out
+
+
+SQL_BACKENDS = (("backend.sql", "SqlImpl"), ("backend.sqlite", "SqliteImpl"), ("backend.duckdb", "DuckDbImpl"), ("backend.mssql", "MsSqlImpl"),
+                ("backend.postgres", "PostgresImpl"), ("backend.ibm_db2", "IbmDb2Impl"))  # fmt: skip
+
+
+def compile_order_scenarios(repo, types_env=None):
+    """`compile_order` of every SQL back end (its own override or the inherited one) interpreted for every combination of the
+    ordering flags: the key is followed by DESC iff `descending`, and by NULLS LAST / NULLS FIRST iff `nulls_last` is True /
+    False (nothing when the user did not ask).  -> list of (module, class name, description, ok, detail)"""
+    from .catalogue import DT
+    from .program import Program
+
+    p = Program(repo, types_env, primary="backend.sql")
+    out = []
+    for short, cname in SQL_BACKENDS:
+        try:
+            mod = repo.mod(short)
+            cls_ = p.env_of(mod)[cname]
+        except (AnalysisError, KeyError):
+            continue
+        f = cls_.methods.get("compile_order")
+        if f is None:
+            continue
+        for desc_flag, nl in itertools.product((False, True), (None, True, False)):
+            o = Obj(cls_)
+            o.attrs.update({"compile_col_expr": Native(lambda e, sqa_expr, **kw: Var("key"), "cls.compile_col_expr"), "default_collation": Native(lambda: None, "cls.default_collation")})
+            col = p.new("tree.col_expr", "Col", name="k", _ast=None, _uuid="U", _dtype=DT("Int64"), _ftype=None)
+            order = p.new("tree.col_expr", "Order", order_by=col, descending=desc_flag, nulls_last=nl)
+            label = f"{cname}.compile_order(descending={desc_flag}, nulls_last={nl})"
+            try:
+                t = p.call(f.bind(o), [order, {}])
+            except PyRaise as e:
+                out.append((mod, cname, label, False, f"{label} raises {e.name}: {e.msg}"))
+                continue
+            chain = []
+            x = t
+            while isinstance(x, Term) and x.recv is not None:
+                chain.append(x.fn.split(".")[-1])
+                x = x.recv
+            chain.reverse()
+            direction = [c for c in chain if c in ("asc", "desc")]
+            nulls = [c for c in chain if c in ("nulls_last", "nulls_first", "nullslast", "nullsfirst")]
+            want_dir = ["desc"] if desc_flag else ["asc"]
+            want_nulls = [] if nl is None else ["nulls_last" if nl else "nulls_first"]
+            ok = isinstance(x, Var) and x.name == "key" and (direction == want_dir or (not desc_flag and direction == [])) and [n.replace("nullsl", "nulls_l").replace("nullsf", "nulls_f") for n in nulls] == want_nulls
+            out.append((mod, cname, f"{label} -> key {' '.join(want_dir + want_nulls)}", ok,
+                        f"{label} builds {t!r}; documented: the key, {'DESC' if desc_flag else 'ASC'}"
+                        f"{'' if nl is None else ', NULLS LAST' if nl else ', NULLS FIRST'} (an explicit null placement is part of the requested order on every back end)"))  # fmt: skip
+    return out
+
+
+def cast_delegation_scenarios(repo, types_env=None):
+    """the Cast branch of `SqlImpl.compile_col_expr` interpreted for operands of every kind (column, literal of several python
+    types, function call): the cast is compiled by the back end's `compile_cast` - the per-back-end conversion rules live there,
+    a cast that bypasses it (e.g. folds a literal with python's own conversions) follows other rules than the same cast of a
+    column.  -> list of (description, ok, detail)"""
+    import datetime as _dt
+
+    from .catalogue import DT
+    from .program import Program
+
+    p = Program(repo, types_env, primary="backend.sql")
+    env = p.env_of(repo.mod("backend.sql"))
+    cls_ = env["SqlImpl"]
+    f = cls_.methods["compile_col_expr"]
+    out = []
+    I, F, S, D = DT("Int64"), DT("Float64"), DT("String"), DT("Datetime")
+    lit_cls = p.cls("tree.col_expr", "LiteralCol")
+    operands = [("a column", lambda: p.new("tree.col_expr", "Col", name="c", _ast=None, _uuid="U", _dtype=F, _ftype=None))]
+    for v, dt in ((2.5, F), (-7, I), ("12", S), (True, DT("Bool")), (_dt.datetime(2020, 1, 2, 3, 4, 5), D), (None, F)):
+        operands.append((f"the literal {v!r}", lambda v=v, dt=dt: p.call(lit_cls, [v, dt])))
+    valid = {"the literal True": (I,), "the literal datetime.datetime(2020, 1, 2, 3, 4, 5)": (S,)}  # (pairs of the documented table only)
+    for what, mk in operands:
+        for target in valid.get(what, (I, F, S)):
+            for strict in (True, False):
+                o = Obj(cls_)
+                seen = []
+                o.attrs.update({
+                    "compile_cast": Native(lambda cast, sqa_expr, _s=seen: (_s.append(cast), Var("CAST"))[1], "cls.compile_cast"),
+                    "compile_lit": Native(lambda lit: Var("LIT"), "cls.compile_lit"),
+                    "cast_compiled": Native(lambda cast, e: Var("CAST"), "cls.cast_compiled"),
+                })  # fmt: skip
+                try:
+                    val = mk()
+                    cast = p.new("tree.col_expr", "Cast", val=val, target_type=target, strict=strict, _dtype=target, _ftype=None)
+                    t = p.call(f.bind(o), [cast, {"U": Var("col")}])
+                except PyRaise as e:
+                    out.append((f"cast of {what} to {target!r} (strict={strict})", False, f"SqlImpl.compile_col_expr raises {e.name}: {e.msg} for a cast of {what} to {target!r}"))
+                    continue
+                ok = isinstance(t, Var) and t.name == "CAST" and len(seen) == 1 and seen[0] is cast
+                out.append((f"cast of {what} to {target!r} (strict={strict}) is compiled by compile_cast", ok,
+                            f"a cast of {what} to {target!r} (strict={strict}) compiles to {t!r} without going through the back end's compile_cast: the documented "
+                            "conversion rules (and every back end's override of them) are not applied to this operand kind"))  # fmt: skip
+    return out
